@@ -43,7 +43,7 @@ ASSUMPTIONS = [
     'vectorised results, so the statement (no array passed by the caller is changed) applies; these sites are separate so they can be triaged apart',
     'WMM default dates are evaluated at import; determinism within one process is all that is needed here (explicit dates are passed anyway)',
 ]
-REQUIRED_CLASSES = ['group:orientation', 'group:Quaternion', 'group:QuaternionArray', 'group:DCM', 'group:quaternion', 'group:dcm', 'group:frames',
+REQUIRED_CLASSES = ['constructed-selves', 'derived-selves', 'group:orientation', 'group:Quaternion', 'group:QuaternionArray', 'group:DCM', 'group:quaternion', 'group:dcm', 'group:frames',
                     'group:mathfuncs', 'group:metrics', 'group:core', 'group:filters', 'group:sensors', 'group:wmm', 'group:ellipsoid',
                     'kind:constructor', 'kind:method', 'kind:function', 'kind:property',
                     'container:nd', 'container:list', 'container:view', 'value:unit', 'value:nonunit', 'value:deg', 'value:rad', 'value:single', 'value:batch',
@@ -1144,7 +1144,13 @@ def _b(V, L, cid):
             C('batch gyr,acc,mag q0= P= magnetic_ref= noises=', lambda: dict(_gam(V), q0=V.q, P=V.P4, magnetic_ref=V.mref, noises=np.array([0.1, 0.2, 0.3])),
               lambda a: E(a['gyr'], a['acc'], a['mag'], q0=a['q0'], P=a['P'], magnetic_ref=a['magnetic_ref'], noises=a['noises']), tags=('batch', 'optional-array')),
             C('batch ENU magnetic_ref=', lambda: dict(_gam(V), magnetic_ref=V.mref), lambda a: E(a['gyr'], a['acc'], a['mag'], frame='ENU', magnetic_ref=a['magnetic_ref']), tags=('batch', 'optional-array')),
-            C('no data P= magnetic_ref=', lambda: {'P': V.P4, 'magnetic_ref': V.mref}, lambda a: E(P=a['P'], magnetic_ref=a['magnetic_ref']), tags=('optional-array',))]
+            C('no data P= magnetic_ref=', lambda: {'P': V.P4, 'magnetic_ref': V.mref}, lambda a: E(P=a['P'], magnetic_ref=a['magnetic_ref']), tags=('optional-array',)),
+            # the per-sensor variance options, alone (over the default variances) and over a caller's noises sequence (array and list)
+            C('batch gyr,acc var_gyr= var_acc=', lambda: {'gyr': V.GYR, 'acc': V.ACC}, lambda a: E(a['gyr'], a['acc'], var_gyr=0.01, var_acc=4.0), tags=('batch',)),
+            C('batch gyr,acc (default variances again)', lambda: {'gyr': V.GYR, 'acc': V.ACC}, lambda a: E(a['gyr'], a['acc']), tags=('batch',)),
+            C('batch gyr,acc,mag noises= var_mag=', lambda: dict(_gam(V), noises=np.array([0.01, 0.04, 0.09])), lambda a: E(a['gyr'], a['acc'], a['mag'], noises=a['noises'], var_mag=0.5), tags=('batch', 'optional-array')),
+            C('no data noises=list var_acc=', lambda: {'noises': [0.01, 0.04, 0.09], 'P': V.P4}, lambda a: E(noises=a['noises'], var_acc=2.0, P=a['P']), keep=('noises',), tags=('optional-array',)),
+            C('no data (default variances)', lambda: {'P': V.P4}, lambda a: E(P=a['P']), tags=('optional-array',))]
 
 
 @builder('EKF.update')
@@ -1609,6 +1615,48 @@ def job_derived_selves(ctx, k):
             same = np.asarray(O0, float).tobytes() == b0 and np.asarray(O0.A, float).tobytes() == a0
             ctx.expect(same, f"in-place edits of an independent copy of the caller's {cname} leave the caller's object as it was", f'derived={dn} k{k}', np.asarray(O0.A, float), 'unchanged')
         ctx.cls('derived-selves')
+    # objects BUILT from a caller's array (every constructor option that keeps the numbers as they are: versors / versor False, either storage
+    # order, rows that are already unit): the object owns its memory - its in-place methods and in-place edits never reach the caller's array
+    rows_unit = np.array([rq.qunit(r_) for r_ in Qj])
+    rows_raw = rows_unit * np.array([2.0, 0.5, 3.0, 1.0, 0.25, 7.0])[:, None]
+    sources = [('QuaternionArray(X)', rows_unit, lambda X: QuaternionArray(X)), ('QuaternionArray(X, versors=False)', rows_raw, lambda X: QuaternionArray(X, versors=False)),
+               ('QuaternionArray(unit X, versors=False)', rows_unit, lambda X: QuaternionArray(X, versors=False)), ("QuaternionArray(X, order='S')", rows_unit, lambda X: QuaternionArray(X, order='S')),
+               ("QuaternionArray(X, versors=False, order='S')", rows_raw, lambda X: QuaternionArray(X, versors=False, order='S')),
+               ('QuaternionArray(QuaternionArray(X))', rows_unit, lambda X: QuaternionArray(QuaternionArray(X))), ('QuaternionArray(X[:, :]) (a view)', rows_unit, lambda X: QuaternionArray(X[:, :]))]
+    for sn, X0, mk in sources:
+        for on, op in ops + [('D[...] = 0.5', lambda D: D.__setitem__(Ellipsis, 0.5)), ('D.array[...] = 0.5', lambda D: D.array.__setitem__(Ellipsis, 0.5))]:
+            X = np.array(X0, float, order='C')
+            b0 = X.tobytes()
+            key = f'source={sn} op={on} k{k}'
+            ctx.evals += 1
+            try:
+                D = mk(X)
+            except Exception:
+                ctx.outcome(('construct-refused', sn)); continue
+            try:
+                op(D)
+            except Exception:
+                ctx.outcome(('constructed-op-refused', sn, on))
+            ctx.expect(X.tobytes() == b0, "an object built from the caller's array owns its memory: its in-place methods / edits leave the caller's array as it was", key, X[:2], np.asarray(X0)[:2])
+            ctx.seen(('constructed-self', sn, on))
+    for sn, x0, mk in (('Quaternion(x)', np.array(V.q, float), lambda x: Quaternion(x)), ('Quaternion(3x, versor=False)', 3.0 * np.array(V.q, float), lambda x: Quaternion(x, versor=False)),
+                       ('Quaternion(unit x, versor=False)', rq.qunit(np.array(V.q, float)), lambda x: Quaternion(x, versor=False)), ("Quaternion(x, order='S')", np.array(V.q, float), lambda x: Quaternion(x, order='S')),
+                       ('Quaternion(Quaternion(x))', np.array(V.q, float), lambda x: Quaternion(Quaternion(x))), ('DCM(R)', rq.R(rq.qunit(np.array(V.q, float))), lambda x: DCM(x)),
+                       ('DCM(DCM(R))', rq.R(rq.qunit(np.array(V.q, float))), lambda x: DCM(DCM(x)))):
+        for on, op in (('obj[...] = 0.25', lambda D: D.__setitem__(Ellipsis, 0.25)), ('obj.A[...] = 0.25', lambda D: D.A.__setitem__(Ellipsis, 0.25)), ('obj *= 2 (element-wise)', lambda D: np.multiply(D, 2.0, out=np.asarray(D))),
+                       ('normalize()', lambda D: D.normalize())):
+            x = np.array(x0, float, order='C'); b0 = x.tobytes()
+            ctx.evals += 1
+            try:
+                D = mk(x)
+            except Exception:
+                ctx.outcome(('construct-refused', sn)); continue
+            try:
+                op(D)
+            except Exception:
+                ctx.outcome(('constructed-op-refused', sn, on))
+            ctx.expect(x.tobytes() == b0, "an object built from the caller's array owns its memory: its in-place methods / edits leave the caller's array as it was", f'source={sn} op={on} k{k}', x, x0)
+    ctx.cls('constructed-selves')
     ctx.sample({'derived': [d[0] for d in derive], 'in_place_ops': [o[0] for o in ops]})
 
 
